@@ -520,6 +520,14 @@ def run(drv, prop, tier, cfg, t0):
 
 def replay_case(drv, binary, case):
     """True if the case still fails."""
+    if case.get("family") == "documented":
+        # a documented example is re-read from the repository: the defect is in what the document says
+        cur = [c for c in documented_cases() if c["document"] == case.get("document")]
+        if not cur:
+            return False
+        via = case.get("via")
+        case = dict(cur[0])
+        case["via"] = via
     case = {k: v for k, v in case.items() if k not in ("engine",)}
     case["file"] = [tuple(x) for x in case.get("file", [])]
     case["cli"] = [tuple(x) for x in case.get("cli", [])]
